@@ -12,3 +12,4 @@ import DoviModel.Props.C03
 import DoviModel.Props.C04
 import DoviModel.Props.C12
 import DoviModel.Props.C14
+import DoviModel.Props.C09
